@@ -161,6 +161,8 @@ def check_one(out: Outcome, m, shape, sfx, value, case, line, sub, stats=None):
                     f"`{line}` assembled to {got.hex()} in {nblocks} block(s) at {[a for a, _ in res['blocks']]}, ISA says {want.hex()}")
         if stats is not None:
             stats["accepted"] += 1
+            if cell in supported():
+                stats["cell:" + "/".join(str(x) for x in cell)] += 1
         return exp[0] == "op"
     # rejected
     if exp[0] != "undefined" and cell in supported():
@@ -252,7 +254,7 @@ def run_case(case) -> Outcome:
                         nt += 1
                     ev += 1
         out.evals, out.nontrivial = ev, nt
-        out.labels = [f"enum:{k}" for k in stats] + [f"mnemonic:{m}"]
+        out.labels = [f"enum:{k}" for k in stats if not k.startswith("cell:")] + [k for k in stats if k.startswith("cell:")] + [f"mnemonic:{m}"]
         out.sample = {"mnemonic": m, "lines_tried": ev, "stats": dict(stats),
                       "example": render_line(m, ("(", "s", "y"), "", "0x12", "upper")}
         return out
@@ -326,6 +328,19 @@ def run_case(case) -> Outcome:
                         f"`{line}` (operand value {value:#x}) rejected although the cell is supported: {res['status']} {res['exc']} {res.failure_text[:200]}")
         return out
     raise ValueError(t)
+
+
+def coverage_extra(tier, total):
+    """every cell of the supported set must have been assembled (and compared with the ISA) at least once"""
+    hit = {k for k in total.labels if k.startswith("cell:")}
+    n_total = len(supported())
+    for k in list(total.labels):
+        if k.startswith(("cell:", "mnemonic:")):
+            del total.labels[k]
+    extra = {"supported_cells_total": n_total, "supported_cells_assembled_and_compared": len(hit)}
+    if len(hit) < n_total:
+        extra["generator_floor_failures"] = [f"only {len(hit)} of {n_total} supported cells were exercised"]
+    return extra
 
 
 def build_supported() -> list:
